@@ -216,6 +216,17 @@ Section RoundTrip.
     reflexivity.
   Qed.
 
+  (* module-level wrap given a header string (KeyBlock(kbpk, str) loads it into
+     a fresh Header first) *)
+  Theorem roundtrip_str kbpk hs h n key mask tape s :
+    header_load default_header hs = (h, Ok n) -> header_ok h ->
+    bytes_ok kbpk = true -> bytes_ok key = true -> bytes_ok tape = true ->
+    wrap_str cd ca kbpk hs key mask tape = Ok s -> unwrap cd ca kbpk s = Ok (h, key).
+  Proof.
+    intros Hl Hok Bk Bkey Bt. unfold wrap_str. rewrite Hl. cbn [bind].
+    apply roundtrip; assumption.
+  Qed.
+
   (* wrapping leaves the object (KBPK and header) untouched *)
   Theorem wrap_pure st key mask tape :
     fst (step cd ca st (OpWrap key mask tape)) = st /\
@@ -237,4 +248,5 @@ Section RoundTrip.
 End RoundTrip.
 
 Print Assumptions roundtrip.
+Print Assumptions roundtrip_str.
 Print Assumptions roundtrip_object.
